@@ -242,34 +242,35 @@ theorem C02_all_inactive_no_targets (ps : List (Task × Outcome)) (h : ∀ p ∈
 /-! ## DEPLOY -/
 
 def C02_deploy_iff_full : Prop :=
-  ∀ (ls : List (Bool × Launch)) (calls : Nat), deployBody ls calls = .ok ↔ allCriticalLaunched ls = true
+  ∀ (ls : List (Bool × Launch)) (calls : Nat) (lost : Bool),
+    deployBody ls calls lost = .ok ↔ allCriticalLaunched ls = true
 
 /-- DEPLOY succeeds iff every critical task became active — provided the workflow has a role at all, no
-    NON-critical task failed to start (the root status the loop waits for is the product over all roles) and no
-    TASK_RUNNING update overtook the roster. -/
-theorem C02_deploy_iff_partial (ls : List (Bool × Launch)) (calls : Nat)
+    NON-critical task failed to start (the root status the loop waits for is the product over all roles), no
+    TASK_RUNNING update overtook the roster and the "ACTIVE" notification was not dropped. -/
+theorem C02_deploy_iff_partial (ls : List (Bool × Launch)) (calls : Nat) (lost : Bool)
     (h0 : emptyWorkflow { calls := calls, tasks := ls } = false) (h1 : noncritLaunchFail ls = false)
-    (h2 : earlyRunning ls = false) :
-    deployBody ls calls = .ok ↔ allCriticalLaunched ls = true := by
+    (h2 : earlyRunning ls = false) (h3 : lost = false) :
+    deployBody ls calls lost = .ok ↔ allCriticalLaunched ls = true := by
   rw [deployBody_ok]
   have hne : ls ≠ [] ∨ calls ≠ 0 := by
     simp only [emptyWorkflow, Bool.and_eq_false_iff, List.isEmpty_eq_false_iff, decide_eq_false_iff_not] at h0
     exact h0
   simp only [allCriticalLaunched, List.all_eq_true, noncritLaunchFail, earlyRunning, List.any_eq_false] at h1 h2 ⊢
   constructor
-  · rintro ⟨_, hall⟩ l hl; simp [hall l hl, Launch.started]
+  · rintro ⟨_, _, hall⟩ l hl; simp [hall l hl, Launch.started]
   · intro h
-    refine ⟨hne, fun l hl => ?_⟩
+    refine ⟨h3, hne, fun l hl => ?_⟩
     have a := h l hl
     have b := h1 l hl
     have c := h2 l hl
     cases hc : l.1 <;> cases hl2 : l.2 <;> simp_all [Launch.started]
 
 /-- In full: a critical task that does not start (dies, stays staging, has no host) fails the DEPLOY. -/
-theorem C02_deploy_critical_needed (ls : List (Bool × Launch)) (calls : Nat)
-    (h : allCriticalLaunched ls = false) : deployBody ls calls ≠ .ok := by
+theorem C02_deploy_critical_needed (ls : List (Bool × Launch)) (calls : Nat) (lost : Bool)
+    (h : allCriticalLaunched ls = false) : deployBody ls calls lost ≠ .ok := by
   rw [Ne, deployBody_ok]
-  rintro ⟨_, hall⟩
+  rintro ⟨_, _, hall⟩
   have : allCriticalLaunched ls = true := by
     simp only [allCriticalLaunched, List.all_eq_true]; intro l hl; simp [hall l hl, Launch.started]
   rw [this] at h; cases h
@@ -277,20 +278,27 @@ theorem C02_deploy_critical_needed (ls : List (Bool × Launch)) (calls : Nat)
 /-- finding `deploy_noncritical_blocks`: a non-critical task that does not start makes the DEPLOY fail. -/
 theorem C02_finding_deploy_noncritical_blocks : ¬ C02_deploy_iff_full := by
   intro h
-  have := h [(true, .ok), (false, .dies)] 0
+  have := h [(true, .ok), (false, .dies)] 0 false
   revert this; decide
 
 /-- finding `deploy_empty_workflow`: a workflow without roles cannot be deployed. -/
 theorem C02_finding_deploy_empty_workflow : ¬ C02_deploy_iff_full := by
   intro h
-  have := h [] 0
+  have := h [] 0 false
   revert this; decide
 
-/-- finding `deploy_running_update_dropped`: a task that reports TASK_RUNNING before acquireTasks has entered it into
-    the roster never becomes ACTIVE for the core: the DEPLOY times out although every task started in time. -/
+/-- finding `deploy_misses_active` (a): a task that reports TASK_RUNNING before acquireTasks has entered it into the
+    roster never becomes ACTIVE for the core: the DEPLOY times out although every task started in time. -/
 theorem C02_finding_deploy_running_update_dropped : ¬ C02_deploy_iff_full := by
   intro h
-  have := h [(true, .okEarly)] 0
+  have := h [(true, .okEarly)] 0 false
+  revert this; decide
+
+/-- finding `deploy_misses_active` (b): the non-blocking notification that the root became ACTIVE is dropped while the
+    loop is not at its receive: the DEPLOY times out although the workflow is ACTIVE. -/
+theorem C02_finding_deploy_notification_lost : ¬ C02_deploy_iff_full := by
+  intro h
+  have := h [(true, .ok)] 0 true
   revert this; decide
 
 /-! ## the corners are exhaustive; with the repairs the Spec holds
@@ -477,13 +485,14 @@ theorem steps_named (steps : List SStep) : ∀ (env : Env) (tasks : List Task), 
 
 def tasks0 (wf : Workflow) : List Task := wf.tasks.map (fun t => { critical := t.1, active := t.2 = .ok })
 
-theorem deploy_ok_launched (ls : List (Bool × Launch)) (calls : Nat) (h : deployBody ls calls = .ok) :
-    allCriticalLaunched ls = true := by
+theorem deploy_ok_launched (ls : List (Bool × Launch)) (calls : Nat) (lost : Bool)
+    (h : deployBody ls calls lost = .ok) : allCriticalLaunched ls = true := by
   cases ha : allCriticalLaunched ls
-  · exact absurd h (C02_deploy_critical_needed ls calls ha)
+  · exact absurd h (C02_deploy_critical_needed ls calls lost ha)
   · rfl
 
-theorem deployBody_not_hang (ls : List (Bool × Launch)) (calls : Nat) : deployBody ls calls ≠ .hang := by
+theorem deployBody_not_hang (ls : List (Bool × Launch)) (calls : Nat) (lost : Bool) :
+    deployBody ls calls lost ≠ .hang := by
   unfold deployBody; split <;> simp
 
 theorem new_env_ok (d : Env) (hd : d = (tryTransition ({} : Env) [] .DEPLOY true false).1) :
@@ -500,8 +509,8 @@ theorem create_named (wf : Workflow) (outs : List Outcome) :
     (∀ env tasks, (createEnvironment Cfg.code wf outs).2 = some (env, tasks) →
       env.pending = [] ∧ env.st = .CONFIGURED ∧ tasks = afterCommand (tasks0 wf) outs) := by
   unfold createEnvironment
-  cases hdep : deployBody wf.tasks wf.calls with
-  | hang => exact absurd hdep (deployBody_not_hang _ _)
+  cases hdep : deployBody wf.tasks wf.calls wf.notifyLost with
+  | hang => exact absurd hdep (deployBody_not_hang _ _ _)
   | error =>
     simp only
     refine ⟨?_, by intro _ _ h; cases h⟩
@@ -511,12 +520,13 @@ theorem create_named (wf : Workflow) (outs : List Outcome) :
       · simp [judgeNew, hl, ha, Trans.reqOk, Named]
       · -- every critical task started and would have acknowledged, yet DEPLOY failed: one of the three DEPLOY corners
         cases h0 : emptyWorkflow wf <;> cases h2 : earlyRunning wf.tasks <;> cases h1 : noncritLaunchFail wf.tasks <;>
-          simp [judgeNew, hl, ha, Trans.reqOk, reached, Named, h0, h1, h2]
-        have := (C02_deploy_iff_partial wf.tasks wf.calls h0 h1 h2).2 hl
+          cases h3 : wf.notifyLost <;>
+          simp [judgeNew, hl, ha, Trans.reqOk, reached, Named, h0, h1, h2, h3]
+        have := (C02_deploy_iff_partial wf.tasks wf.calls wf.notifyLost h0 h1 h2 h3).2 hl
         rw [hdep] at this; cases this
   | ok =>
     simp only
-    have hl := deploy_ok_launched _ _ hdep
+    have hl := deploy_ok_launched _ _ _ hdep
     have henv := new_env_ok _ rfl
     cases hb : configureBody Cfg.code (targets (pair (tasks0 wf) outs)) with
     | hang =>
@@ -526,7 +536,8 @@ theorem create_named (wf : Workflow) (outs : List Outcome) :
       refine ⟨?_, by intro _ _ h; cases h⟩
       simp only [tasks0, hts]
       cases h0 : emptyWorkflow wf <;> cases h2 : earlyRunning wf.tasks <;> cases h1 : noncritLaunchFail wf.tasks <;>
-        simp [judgeNew, hl, allCriticalAcked, Trans.reqOk, reached, Named, h0, h1, h2, noTargets]
+        cases h3 : wf.notifyLost <;>
+        simp [judgeNew, hl, allCriticalAcked, Trans.reqOk, reached, Named, h0, h1, h2, h3, noTargets]
     | error =>
       simp only [tasks0] at hb
       simp only [hb]
@@ -538,7 +549,7 @@ theorem create_named (wf : Workflow) (outs : List Outcome) :
             simp only [bodyFor, tasks0, hb]; decide) ha
         rcases hcorner with hc | hc <;>
           cases h0 : emptyWorkflow wf <;> cases h2 : earlyRunning wf.tasks <;> cases h1 : noncritLaunchFail wf.tasks <;>
-          cases h3 : noTargets (targets (pair (tasks0 wf) outs)) <;>
+          cases h3 : noTargets (targets (pair (tasks0 wf) outs)) <;> cases h4 : wf.notifyLost <;>
           simp_all [judgeNew, Trans.reqOk, reached, Named]
     | ok =>
       simp only [tasks0] at hb
@@ -681,24 +692,25 @@ theorem steps_fixed (steps : List SStep) : ∀ (env : Env) (tasks : List Task), 
           simp [judgeSteps, hc, hd, hk, judgeCtl, ha, Trans.reqOk, reached]
 
 theorem create_fixed (wf : Workflow) (outs : List Outcome)
-    (h0 : emptyWorkflow wf = false) (h1 : noncritLaunchFail wf.tasks = false) (h2 : earlyRunning wf.tasks = false) :
+    (h0 : emptyWorkflow wf = false) (h1 : noncritLaunchFail wf.tasks = false) (h2 : earlyRunning wf.tasks = false)
+    (h3 : wf.notifyLost = false) :
     judgeNew wf (targets (pair (tasks0 wf) outs)) (createEnvironment Cfg.fixed wf outs).1 = none ∧
     (∀ env tasks, (createEnvironment Cfg.fixed wf outs).2 = some (env, tasks) →
       env.pending = [] ∧ env.st = .CONFIGURED ∧ tasks = afterCommand (tasks0 wf) outs) := by
   unfold createEnvironment
-  cases hdep : deployBody wf.tasks wf.calls with
-  | hang => exact absurd hdep (deployBody_not_hang _ _)
+  cases hdep : deployBody wf.tasks wf.calls wf.notifyLost with
+  | hang => exact absurd hdep (deployBody_not_hang _ _ _)
   | error =>
     simp only
     refine ⟨?_, by intro _ _ h; cases h⟩
     have hl : allCriticalLaunched wf.tasks = false := by
       cases h : allCriticalLaunched wf.tasks
       · rfl
-      · have := (C02_deploy_iff_partial wf.tasks wf.calls h0 h1 h2).2 h; rw [hdep] at this; cases this
+      · have := (C02_deploy_iff_partial wf.tasks wf.calls wf.notifyLost h0 h1 h2 h3).2 h; rw [hdep] at this; cases this
     simp [judgeNew, hl, Trans.reqOk]
   | ok =>
     simp only
-    have hl := deploy_ok_launched _ _ hdep
+    have hl := deploy_ok_launched _ _ _ hdep
     have henv := new_env_ok _ rfl
     have hiff := iff_fixed_ts .CONFIGURE (Or.inl rfl) (tasks0 wf) outs
     simp only [bodyFor] at hiff
@@ -738,12 +750,14 @@ theorem judge_cons_none (sc : Scenario) (o : Obs) (os : List Obs)
   · rfl
 
 /-- With the three repairs on, the model satisfies Spec.C02 on EVERY scenario whose workflow has a role, in which no
-    non-critical task fails to start and no TASK_RUNNING update overtakes the roster (the DEPLOY corners, for which
+    non-critical task fails to start, no TASK_RUNNING update overtakes the roster and the ACTIVE notification is not
+    dropped (the DEPLOY corners, for which
     no small repair is proposed). -/
 theorem C02_spec_fixed (sc : Scenario) (h0 : emptyWorkflow sc.wf = false)
-    (h1 : noncritLaunchFail sc.wf.tasks = false) (h2 : earlyRunning sc.wf.tasks = false) :
+    (h1 : noncritLaunchFail sc.wf.tasks = false) (h2 : earlyRunning sc.wf.tasks = false)
+    (h3 : sc.wf.notifyLost = false) :
     judge sc (run Cfg.fixed sc) = none := by
-  obtain ⟨hn, hsome⟩ := create_fixed sc.wf sc.configure h0 h1 h2
+  obtain ⟨hn, hsome⟩ := create_fixed sc.wf sc.configure h0 h1 h2 h3
   have hnil : judge sc [(createEnvironment Cfg.fixed sc.wf sc.configure).1] = none :=
     judge_cons_none sc _ [] hn (judgeSteps_no_obs _ _ _)
   unfold run
@@ -778,4 +792,4 @@ example :
 
 example : emptyWorkflow { calls := 0, tasks := [(true, .ok), (false, .ok)] } = false ∧
     noncritLaunchFail [(true, .ok), (false, .ok)] = false ∧ earlyRunning [(true, .ok), (false, .ok)] = false ∧
-    deployBody [(true, .ok), (false, .ok)] 0 = .ok := by decide
+    deployBody [(true, .ok), (false, .ok)] 0 false = .ok := by decide
